@@ -272,6 +272,9 @@ class EngineSystem:
         self.waiter = None
         self.ext_sent = 0
         self.slept = 0
+        self.jumps = 0
+        import time as _tm
+        self.t0_mono = self.loop.time() if True else _tm.time()
 
     # ---- time
     def now_ms(self):
@@ -289,6 +292,12 @@ class EngineSystem:
         rec["run"] = self.run_no
         self.seq += 1
         self.trace.append(rec)
+
+    def _to_loop_time(self, at):
+        """The runner's wake-up times are in the adapter's clock (epoch seconds since fix a2fea11, the monotonic clock
+        before): convert to the event loop's clock."""
+        off = self.loop.wall() - self.loop.time()
+        return at - off if abs(at - self.loop.wall()) < abs(at - self.loop.time()) else at
 
     def live_now(self):
         return {s: int(self.rig.live.get(s, 0)) for s in sorted(self.prog["steps"])}
@@ -380,6 +389,16 @@ class EngineSystem:
                 for j in range(len(og)):
                     if i != j and len(out) < 40:
                         out.append(["release2"] + list(og[i]) + list(og[j]))
+        if batch and self.outcome is None and self.prog.get("timeout") is not None and self.jumps < 1:
+            # a body finishes, then the loop is held up until the workflow timeout has elapsed, then it runs again
+            deadline = None
+            for r in _RUNNERS.values():
+                for (at, _s, tk) in r.scheduled_wakeups:
+                    if isinstance(tk, T.TickTimeout):
+                        deadline = at
+            if deadline is not None:
+                for k in og[:3]:
+                    out.append(["release_freeze", k[0], k[1], k[2], k[3], ms(self._to_loop_time(deadline) - self.t0)])
         if sleep_ms and og and self.outcome is None and self.slept < 3:
             out.append(["sleep", sleep_ms])      # a step body takes time
         if self.outcome is None and self.handler is not None:
@@ -394,7 +413,7 @@ class EngineSystem:
                 kind = "other"
                 for r in _RUNNERS.values():
                     for (at, _s, tk) in r.scheduled_wakeups:
-                        if abs(at - nt) < 1e-6:
+                        if abs(self._to_loop_time(at) - nt) < 1e-6:
                             kind = p_tick(tk)["k"]
                 out.append(["advance", ms(nt - self.t0), kind])
         return out
@@ -413,6 +432,14 @@ class EngineSystem:
                 f = self.rig.gates.get(key)
                 if f is not None and not f.done():
                     f.set_result(None)
+            self.loop.quiesce()
+        elif name == "release_freeze":
+            self.jumps += 1
+            f = self.rig.gates.get(tuple(cmd[1:5]))
+            if f is not None and not f.done():
+                f.set_result(None)
+            self.loop.run_iterations(2)            # the body runs to its end; the control loop has not resumed yet
+            self.loop.jump_to(self.t0 + cmd[5] / 1000.0 + 0.001)
             self.loop.quiesce()
         elif name == "sleep":
             self.slept += 1
